@@ -2,12 +2,15 @@
 
    request : hist <repaired 0/1> <strict 0/1> <nw> <acct> <bip32 0/1> <op> <op> ...
    ops     : K:id:nw:acct:depth | U:rescan:nw:acct:kf:utxos | C:nw:acct:minconf:sel | T:sent:txid:nw:acct:conf:ins:outs:raw
-             | D:txid | R | O | OF
+             | D:txid | R | O[:groups] | OF[:groups]          groups = nw.acct,nw.acct,...
              utxos = key/txid/n/value/conf,...   sel = txid/n,...   ins = idx/prev/n/value/key,...
              outs = n/value/key/spent,...  (key "-" = none; spent 0, 1 or "-" = None);  empty list "-"
    answer  : one item per op joined by "|": "g=<guard>" for state-changing ops, "g=..;sel=.." for C,
              and for O / OF the observation
-             kbpre=..;bal=..;utxos=..;kb=..;txs=..   (OF prints the raw bytes of every transaction too). *)
+             kbpre=..;bal=..;utxos=..;kb=..;txs=..;pa=..;kbA=..;ka=..
+             (OF prints the raw bytes of every transaction too).  pa: for every listed group, after the default
+             readings, the BalanceOf / UtxosOf steps  "nw.acct~balance~utxos" joined by "+"; kbA: the key balances
+             after these steps; ka: key id : nw.acct of every key; x: class predicate has_cross of the state. *)
 module BZ = Z
 open C08_model
 module H = Common.Make (struct type byte = C08_model.byte let zb = C08_model.zb let bz = C08_model.bz end)
@@ -47,6 +50,8 @@ let parse_op (t : string) : op option * string =
   | ["R"] -> Some Reopen, "R"
   | ["O"] -> None, "O"
   | ["OF"] -> None, "OF"
+  | ["O"; _] -> None, "O"
+  | ["OF"; _] -> None, "OF"
   | _ -> failwith ("op " ^ t)
 
 let cmpz = BZ.compare
@@ -70,13 +75,33 @@ let s_tx full t =
 let s_txs full txs =
   String.concat "," (List.sort compare (List.map (s_tx full) txs))
 
-let observe r st s full =
+let groups_of (t : string) =
+  match String.split_on_char ':' t with
+  | [_; gs] -> List.map (fun g -> match String.split_on_char '.' g with
+      | [nw; a] -> (z nw, z a) | _ -> failwith "group") (split ',' gs)
+  | _ -> []
+
+let s_ka ks =
+  String.concat "," (List.map (fun k -> zs k.k_id ^ ":" ^ zs (fst k.k_grp) ^ "." ^ zs (snd k.k_grp))
+                       (List.sort (fun a b -> cmpz a.k_id b.k_id) ks))
+
+let observe r st s full groups =
   let kbpre = s_kb s.l_keys in
   let (s1, o) = step_gen r st s Balance in
   let bal = match o with OBal b -> zs b | _ -> "?" in
   let (s2, o2) = step_gen r st s1 Utxos in
   let ut = match o2 with OUtxos l -> s_utxos l | _ -> "?" in
-  (s2, "kbpre=" ^ kbpre ^ ";bal=" ^ bal ^ ";utxos=" ^ ut ^ ";kb=" ^ s_kb s2.l_keys ^ ";txs=" ^ s_txs full s2.l_txs)
+  let base = "kbpre=" ^ kbpre ^ ";bal=" ^ bal ^ ";utxos=" ^ ut ^ ";kb=" ^ s_kb s2.l_keys ^ ";txs=" ^ s_txs full s2.l_txs in
+  (* balance(account_id=a[, network]) and utxos(account_id=a[, network]) for every group, in the order given *)
+  let (s3, pa) = List.fold_left (fun (s, acc) (nw, a) ->
+      let fn = if BZ.equal nw (fst s.l_default) then None else Some nw in
+      let (sa, oa) = step_gen r st s (BalanceOf (Some a, fn)) in
+      let b = match oa with OBal b -> zs b | _ -> "?" in
+      let (sb, ob) = step_gen r st sa (UtxosOf ((nw, a), BZ.zero)) in
+      let u = match ob with OUtxos l -> s_utxos l | _ -> "?" in
+      (sb, acc @ [zs nw ^ "." ^ zs a ^ "~" ^ b ^ "~" ^ u])) (s2, []) groups in
+  (s3, base ^ ";pa=" ^ String.concat "+" pa ^ ";kbA=" ^ s_kb s3.l_keys ^ ";ka=" ^ s_ka s3.l_keys
+       ^ ";x=" ^ (if has_cross s3 then "1" else "0"))
 
 let dispatch = function
   | "hist" :: r :: st :: nw :: acct :: bip32 :: ops ->
@@ -90,7 +115,7 @@ let dispatch = function
               s := s';
               (match out with OSel b -> "g=" ^ g ^ ";sel=" ^ bool_s b | _ -> "g=" ^ g)
           | None, k ->
-              let (s', txt) = observe r st !s (k = "OF") in
+              let (s', txt) = observe r st !s (k = "OF") (groups_of t) in
               s := s'; txt) ops in
       String.concat "|" outs
   | _ -> "BADREQ"
